@@ -442,6 +442,15 @@ class LDMService:
         """
         with self._lock:
             self.data_consumer_its_aid.discard(its_aid)
+            # The subscriptions of a deregistered consumer end with its registration: they must
+            # not come back to life if the same application registers again later.
+            stale = [
+                subscription
+                for subscription in self.subscriptions
+                if subscription.subscription_request.application_id == its_aid
+            ]
+        for subscription in stale:
+            self.remove_subscription(subscription)
 
     def delete_subscription(self, subscription_id: int) -> bool:
         """
